@@ -5,3 +5,9 @@ import LdkModel.Props.C07
 #print axioms Ldk.C07.ledger_conservation
 #print axioms Ldk.C07.balances_drain
 #print axioms Ldk.C07.locktime_final
+#print axioms Ldk.C07.package_feerate_monotone
+#print axioms Ldk.C07.force_bump_raises_unless_capped
+#print axioms Ldk.C07.package_feerate_trajectory_monotone
+#print axioms Ldk.C07.package_output_sound
+#print axioms Ldk.C07.own_feerate_trajectory_monotone
+#print axioms Ldk.C07.rebroadcast_fee_slack
